@@ -146,6 +146,13 @@ def check(case, ctx):
                 if not lib.close(f.mass - g.mass, want, 1e-5):
                     ctx.fail('series-offset', want, f.mass - g.mass, ion=t, anchor=anchor, span=[a, b], charge=z,
                              monoisotopic=mono, text=s, via=via)
+            # every further charge adds exactly one proton, in both mass modes (difference of two library values)
+            for (t, a, b, z), f in byk.items():
+                if z > 1:
+                    g = byk.get((t, a, b, 1))
+                    if g is not None and not lib.close(f.mass - g.mass, (z - 1) * refdata.PROTON, 1e-6):
+                        ctx.fail('charge-step', (z - 1) * refdata.PROTON, f.mass - g.mass, ion=t, span=[a, b], charge=z,
+                                 monoisotopic=mono, text=s, via=via)
             # complementary pairs: b_i + y_(n-i) = M + 2 protons
             for i in range(1, n):
                 fb = byk.get(('b', 0, i, 1))
